@@ -152,6 +152,9 @@ class Engine:
         if isinstance(goal, bool):
             goal = z3.BoolVal(goal)
         line = getattr(node, "lineno", 0) if node is not None else 0
+        cls = self.spec.finding_classes_for(self, name)
+        if cls:
+            meta = dict(meta or {}, classes=cls)
         g = z3.simplify(goal)
         if not z3.is_true(g):
             self.obligations.append(
@@ -165,13 +168,25 @@ class Engine:
             self.assume(goal)
 
     def feasible(self, extra):
+        """Is `light facts /\ extra` satisfiable?  (unknown counts as feasible.)  One incremental solver per
+        path: facts are asserted once, each query is a push/check/pop."""
         self.stats["feas_checks"] += 1
-        s = z3.Solver()
-        s.set("timeout", self.feas_timeout_ms)
-        for f in self.st.light():
-            s.add(f)
-        s.add(extra)
-        r = s.check()
+        st = self.st
+        light = st.light()
+        ids = [f.get_id() for f in light]
+        sol = getattr(st, "solver", None)
+        if sol is None or st.solver_ids != ids[: len(st.solver_ids)]:
+            sol = z3.Solver()
+            sol.set("timeout", self.feas_timeout_ms)
+            st.solver = sol
+            st.solver_ids = []
+        for f, i in zip(light[len(st.solver_ids) :], ids[len(st.solver_ids) :]):
+            sol.add(f)
+            st.solver_ids.append(i)
+        sol.push()
+        sol.add(extra)
+        r = sol.check()
+        sol.pop()
         return r != z3.unsat
 
     def choose(self, cond):
